@@ -5,7 +5,8 @@ Property theorems about `extractObservationAtTime` (`_extractObservationAtTime`)
 convention and `addJumpsBetweenTime` (`_addJumpsBetweenTime`, as repaired: the per-transition weighted
 histogram of the event times in both modes) of `Pygom/Stoch.lean`.  A path is given by its initial
 record `(x0, t0)` and the list `recs` of appended records; `pathStates`, `pathTimes`, `pathCounts` are the
-arrays `_jump` returns.  `exact_counts_counterexample` is about the exact-mode branch as it was before the
+arrays `_jump` returns.  `rows_telescope` / `exact_run_rows_telescope` sum the interval identity over the grid.
+`exact_counts_counterexample` is about the exact-mode branch as it was before the
 repair (`np.histogram(t, bins)`: all recorded times, `t0` included, unweighted, the same for every transition).
 -/
 import Pygom.Lemmas.StochGrid
@@ -126,6 +127,30 @@ theorem rows_differ_by_vmat_counts (V : List Vec) (x0 : Vec) (t0 : Rat) (recs : 
   rw [hrhs, sum_exchange, ← hcongr, ← hsub]
   ring
 
+/-- **rows_telescope.**  Summed over intervals: for a non-decreasing grid at or after the initial time with no event on
+a grid point other than the last, row `m` differs from row `0` by `V` times the counts reported for the intervals
+`0 .. m-1` added up — no event between the first and the `m`-th requested time is lost or counted twice, however
+the grid cuts the path (any number of points, any spacing, intervals without events, points past extinction). -/
+theorem rows_telescope (V : List Vec) (x0 : Vec) (t0 : Rat) (recs : List Rec) (grid : List Rat) (s : Nat)
+    (hinc : Steps (fun x _ r => r.x.getD s 0 = x.getD s 0 + mulVec V r.counts s) x0 t0 recs)
+    (hsorted : (pathTimes t0 recs).Pairwise (· < ·))
+    (h0 : ∀ k (hk : k < grid.length), t0 ≤ grid[k])
+    (hle : ∀ k (hk : k + 1 < grid.length), grid[k] ≤ grid[k+1])
+    (hno : ∀ r ∈ recs, ∀ k (hk : k + 1 < grid.length), r.t ≠ grid[k])
+    (m : Nat) (hm : m < grid.length) :
+    ((extractObservationAtTime (pathStates x0 recs) (pathTimes t0 recs) grid).getD m []).getD s 0
+      - ((extractObservationAtTime (pathStates x0 recs) (pathTimes t0 recs) grid).getD 0 []).getD s 0
+    = ((List.range m).map (fun k => ((List.range V.length).map (fun i => (V.getD i []).getD s 0 *
+        ((((addJumpsBetweenTime V.length (pathCounts recs) (pathTimes t0 recs) grid).getD k []).getD i 0 : Int) : Rat))).sum)).sum := by
+  induction m with
+  | zero => simp
+  | succ m ih =>
+    have hstep := rows_differ_by_vmat_counts V x0 t0 recs grid m s hinc hsorted hm (h0 m (by omega)) (hle m hm)
+      (fun r hr => ⟨hno r hr m hm, fun h2 => hno r hr (m+1) h2⟩)
+    have ih' := ih (by omega)
+    rw [List.range_succ, List.map_append, List.sum_append, ← ih', List.map_singleton, List.sum_singleton, ← hstep]
+    ring
+
 theorem steps_fix_component {Q : Vec → Rat → Rec → Nat → Prop} (s : Nat) :
     ∀ (recs : List Rec) (x0 : Vec) (t0 : Rat),
       Steps (fun x t r => r.x.length = x.length ∧ ∀ s, s < x.length → Q x t r s) x0 t0 recs → s < x0.length →
@@ -178,6 +203,31 @@ theorem exact_run_rows_differ (c : Cfg) (V : List Vec) (is : List IterIn) (x0 : 
         linarith
     exact this recs x0 t0 hinc hcnt
   exact steps_fix_component (Q := fun x _ r s => r.x.getD s 0 = x.getD s 0 + mulVec V r.counts s) s recs x0 t0 hboth hs
+
+/-- **exact_run_rows_telescope.**  The same summed over intervals for the paths the simulation produces in exact mode:
+row `m` − row `0` = `V ·` (the reported counts of intervals `0 .. m-1` added up), for every event-defined model with a
+state-independent `V`, any positive draws, any non-decreasing grid at or after `t0` with no event on a grid point
+other than the last. -/
+theorem exact_run_rows_telescope (c : Cfg) (V : List Vec) (is : List IterIn) (x0 : Vec) (t0 : Rat) (grid : List Rat)
+    (s : Nat) (hV : ∀ x t, (c.ev x t).cols = V) (hc : C04.GoodCfg c) (hd : C04.PosDraws is) (hs : s < x0.length)
+    (h0 : ∀ k (hk : k < grid.length), t0 ≤ grid[k])
+    (hle : ∀ k (hk : k + 1 < grid.length), grid[k] ≤ grid[k+1])
+    (hno : ∀ r ∈ run c true x0 t0 is, ∀ k (hk : k + 1 < grid.length), r.t ≠ grid[k])
+    (m : Nat) (hm : m < grid.length) :
+    let recs := run c true x0 t0 is
+    ((extractObservationAtTime (pathStates x0 recs) (pathTimes t0 recs) grid).getD m []).getD s 0
+      - ((extractObservationAtTime (pathStates x0 recs) (pathTimes t0 recs) grid).getD 0 []).getD s 0
+    = ((List.range m).map (fun k => ((List.range V.length).map (fun i => (V.getD i []).getD s 0 *
+        ((((addJumpsBetweenTime V.length (pathCounts recs) (pathTimes t0 recs) grid).getD k []).getD i 0 : Int) : Rat))).sum)).sum := by
+  intro recs
+  induction m with
+  | zero => simp
+  | succ m ih =>
+    have hstep := exact_run_rows_differ c V is x0 t0 grid m s hV hc hd hs hm (h0 m (by omega)) (hle m hm)
+      (fun r hr => ⟨hno r hr m hm, fun h2 => hno r hr (m+1) h2⟩)
+    have ih' := ih (by omega)
+    rw [List.range_succ, List.map_append, List.sum_append, ← ih', List.map_singleton, List.sum_singleton, ← hstep]
+    ring
 
 /-- **exact_counts_counterexample** (the exact-mode branch before the repair).  Path `S → I → R` from `(2,0,0)`:
 infection at `t = 1`, recovery at `t = 2`; grid `[0, 3]`.  The per-transition counts of the interval are
